@@ -57,7 +57,7 @@ Inductive case :=
 
 Definition forward_only (c : C19.case) : C19.case :=
   C19.Build_case (C19.c_dep c) (C19.c_blocks c)
-    (filter (fun e => Sched.e_forward e && negb (Sched.e_fragile e)) (C19.c_edges c)) (C19.c_dumps c) (C19.c_inter c).
+    (filter (fun e => Sched.e_forward e && negb (Sched.e_fragile e)) (C19.c_edges c)) (C19.c_dumps c) (C19.c_inter c) (C19.c_expect_fwd c).
 
 (** Third kind: a whole job on the real engine in which two keyed streams over one key space
     are partitioned through two DIFFERENT group-by entry points of the API (left: group_by_count
@@ -89,7 +89,7 @@ Definition corr_ok (c : case) : bool :=
 Definition prop_ok (c : case) : bool :=
   match c with
   | KLink x => prop_ok_link x
-  | KGraph x => forallb (fun d => C19.links_ok (forward_only x) d) (C19.c_dumps x)
+  | KGraph x => C19.expected_forward_ok x && forallb (fun d => C19.links_ok (forward_only x) d) (C19.c_dumps x)
   | KMeet v l r got => meet_ok v l r got
   end.
 
